@@ -66,6 +66,39 @@ type userSM interface {
 	callsOf(index uint64) int
 	gotCmds() map[uint64][]byte
 	setOnSave(f func())
+	race() *racer
+}
+
+// racer: a save is started while the apply path is inside the user Update of one
+// entry (it holds the state machine lock there) — see world.saveRacingUpdate
+type racer struct {
+	at         uint64 // entry index whose Update triggers fn (0: off)
+	fn         func()
+	inUpdate   bool
+	prepared   chan struct{}
+	prepDuring bool // PrepareSnapshot ran while an Update was in progress
+}
+
+func (c *counter) race() *racer { return &c.rc }
+func (c *counter) enter()       { c.rc.inUpdate = true }
+func (c *counter) leave()       { c.rc.inUpdate = false }
+func (c *counter) updated(index uint64) {
+	if c.rc.at != 0 && c.rc.at == index && c.rc.fn != nil {
+		f := c.rc.fn
+		c.rc.fn, c.rc.at = nil, 0
+		f()
+	}
+}
+func (c *counter) preparing() {
+	if c.rc.inUpdate {
+		c.rc.prepDuring = true
+	}
+	if c.rc.prepared != nil {
+		select {
+		case c.rc.prepared <- struct{}{}:
+		default:
+		}
+	}
 }
 
 type counter struct {
@@ -74,6 +107,7 @@ type counter struct {
 	// what the state machine was handed: index -> command (copied in batches BEFORE any of them is applied,
 	// a state machine may keep the commands of a batch until Update returns)
 	got map[uint64][]byte
+	rc  racer
 }
 
 func (c *counter) note(index uint64, cmd []byte) {
@@ -153,17 +187,23 @@ type concSM struct {
 
 func (s *concSM) acc() uint64 { return s.a }
 func (s *concSM) Update(ents []sm.Entry) ([]sm.Entry, error) {
+	s.enter()
+	defer s.leave()
 	for i := range ents {
 		s.note(ents[i].Index, ents[i].Cmd)
 	}
 	for i := range ents {
 		s.calls[ents[i].Index]++
 		s.a, ents[i].Result = accStep(s.a, ents[i].Cmd)
+		s.updated(ents[i].Index)
 	}
 	return ents, nil
 }
 func (s *concSM) Lookup(interface{}) (interface{}, error) { return s.a, nil }
-func (s *concSM) PrepareSnapshot() (interface{}, error)   { return s.a, nil }
+func (s *concSM) PrepareSnapshot() (interface{}, error) {
+	s.preparing()
+	return s.a, nil
+}
 func (s *concSM) SaveSnapshot(ctx interface{}, w io.Writer, _ sm.ISnapshotFileCollection, _ <-chan struct{}) error {
 	s.fireOnSave()
 	return put64(w, ctx.(uint64))
@@ -195,6 +235,8 @@ func (s *diskSM) Open(<-chan struct{}) (uint64, error) {
 	return s.disk.applied, nil
 }
 func (s *diskSM) Update(ents []sm.Entry) ([]sm.Entry, error) {
+	s.enter()
+	defer s.leave()
 	for i := range ents {
 		s.note(ents[i].Index, ents[i].Cmd)
 	}
@@ -205,6 +247,7 @@ func (s *diskSM) Update(ents []sm.Entry) ([]sm.Entry, error) {
 		}
 		s.mem.acc, ents[i].Result = accStep(s.mem.acc, ents[i].Cmd)
 		s.mem.applied = ents[i].Index
+		s.updated(ents[i].Index)
 	}
 	return ents, nil
 }
@@ -215,7 +258,10 @@ func (s *diskSM) Sync() error {
 	}
 	return nil
 }
-func (s *diskSM) PrepareSnapshot() (interface{}, error)   { return s.mem, nil }
+func (s *diskSM) PrepareSnapshot() (interface{}, error) {
+	s.preparing()
+	return s.mem, nil
+}
 func (s *diskSM) SaveSnapshot(ctx interface{}, w io.Writer, _ <-chan struct{}) error {
 	s.fireOnSave()
 	c := ctx.(diskState)
